@@ -21,6 +21,7 @@ def run(idx, rep, tier):
     mink.r_swaprows(idx, rep)
     runmin.r_runmin(idx, rep, ["distance3d.gjk._gjk_jolt"], floor=2)
     libccd.r_dosimplex(idx, rep)
+    libccd.r_expandportal(idx, rep)      # MPR refinement: the portal keeps the origin ray only if the new point replaces the right vertex
     nesterov.r_infl(idx, rep)
     nesterov.r_dispatch(idx, rep)
     nesterov.r_dtree(idx, rep)
